@@ -42,8 +42,10 @@
   the layout of structured MIR as a label CFG (the driver lays it out for the
   comparison with real MIR; no proved function), so T4 `dce_preserves` (proved
   for any CFG and semantics) is not composed with this theorem; (3) below MIR:
-  LIR control flow (src/lir/lower.rs blocks / jumps / stack slots) and Cranelift
-  are exercised by the differential run, not modelled.
+  the LIR lowering of scalar MIR control-flow graphs is `Props/C01Lir.lean`
+  (`lir_lower_preserves_partial`, starting from the compiler's MIR CFG — the layout
+  in (2) lies between the two theorems); stack slots / aggregates in LIR and
+  Cranelift are exercised by the differential run, not modelled.
 -/
 import RotoV.Lemmas.C01Agree
 import RotoV.Lemmas.C01Shape
